@@ -900,3 +900,25 @@ Proof.
   destruct H as [Htq Hcq Htqi Hcqi Hcts Htb Htp Hwp Hnd Hlt HQnd HQst Hlen Hrun Hpark Hoth Hscnd Hsc Hsusp Hr Hres Hact Hasl Hinj Htrk Htrkl Hclk Hnsl].
   constructor; try assumption.
 Qed.
+
+(** the invariant reads the tracker only through its task statuses, worker states and clock *)
+Lemma inv_trk_ext mx specs s d tr tr' cur ct Q R :
+  k_tasks tr' = k_tasks tr -> k_workers tr' = k_workers tr -> k_clock tr' = k_clock tr ->
+  INV mx specs s d tr cur ct Q R -> INV mx specs s d tr' cur ct Q R.
+Proof.
+  intros E1 E2 E3 H.
+  assert (forall t, status tr' t = status tr t) as Hst by (intro t; unfold status; rewrite E1; reflexivity).
+  destruct H as [Htq Hcq Htqi Hcqi Hcts Htb Htp Hwp Hnd Hlt HQnd HQst Hlen Hrun Hpark Hoth Hscnd Hsc Hsusp Hr Hres Hact Hasl Hinj Htrk Htrkl Hclk Hnsl].
+  constructor; try assumption.
+  - intro t. rewrite Hst. apply HQst.
+  - rewrite E1. exact Hlen.
+  - intros w Hin. destruct (Hrun w Hin) as (k & Hk & Hc). exists k. split; [exact Hk|].
+    destruct Hc as [Hc|(t & n & T & lg & Hc)]; [left; exact Hc | right; exists t, n, T, lg; rewrite Hst; exact Hc].
+  - intros T w Hin. destruct (Hpark T w Hin) as (k & t & n & lg & Hc). exists k, t, n, lg. rewrite Hst. exact Hc.
+  - intros t r. rewrite Hst. apply Hres.
+  - intro t. rewrite Hst. apply Hact.
+  - intros t T. rewrite Hst. apply Hasl.
+  - intro w. rewrite E2. apply Htrk.
+  - rewrite E2. exact Htrkl.
+  - rewrite E3. exact Hclk.
+Qed.
